@@ -6,12 +6,17 @@
 #include <poll.h>
 #include <string.h>
 #include "vsrv.h"
-static int g_port, g_fd[64], g_n;
+static int g_port, g_fd[64], g_n, g_init;
 extern "C" int vp_srv_port(void)
 {
-	if (!g_port) {      // find a free port by binding port 0 once
-		int s = socket(AF_INET, SOCK_STREAM, 0); sockaddr_in a; memset(&a, 0, sizeof a); a.sin_family = AF_INET; a.sin_addr.s_addr = htonl(INADDR_LOOPBACK);
-		bind(s, (sockaddr*)&a, sizeof a); socklen_t l = sizeof a; getsockname(s, (sockaddr*)&a, &l); g_port = ntohs(a.sin_port); close(s);
+	if (!g_port) {      // a port derived from the process id (parallel replays must not meet), probed once for availability
+		for (int k = 0; k < 50 && !g_port; k++) {
+			int cand = 20000 + (int)(((long)getpid() * 7 + k * 997) % 30000);
+			int s = socket(AF_INET, SOCK_STREAM, 0); int one = 1; setsockopt(s, SOL_SOCKET, SO_REUSEADDR, &one, sizeof one);
+			sockaddr_in a; memset(&a, 0, sizeof a); a.sin_family = AF_INET; a.sin_addr.s_addr = htonl(INADDR_LOOPBACK); a.sin_port = htons(cand);
+			if (bind(s, (sockaddr*)&a, sizeof a) == 0) g_port = cand;
+			close(s);
+		}
 	}
 	return g_port;
 }
@@ -20,15 +25,18 @@ extern "C" int vp_cli_connect(const unsigned char* data, int n)
 	int s = socket(AF_INET, SOCK_STREAM, 0); sockaddr_in a; memset(&a, 0, sizeof a); a.sin_family = AF_INET; a.sin_addr.s_addr = htonl(INADDR_LOOPBACK); a.sin_port = htons(g_port);
 	if (connect(s, (sockaddr*)&a, sizeof a)) { close(s); return -1; }
 	if (n) (void)!write(s, data, n);
-	g_fd[g_n] = s;
-	return g_n++;
+	if (!g_init) { for (int i = 0; i < 64; i++) g_fd[i] = -1; g_init = 1; }
+	for (int i = 0; i < 64; i++) if (g_fd[i] < 0) { g_fd[i] = s; return i; }
+	close(s);
+	return -1;
 }
 extern "C" int vp_cli_recv(int h, unsigned char* out, int cap)
 {
 	int tot = 0;
+	if (g_fd[h] < 0) return 0;
 	for (;;) {
 		pollfd p = { g_fd[h], POLLIN, 0 };
-		if (poll(&p, 1, 300) <= 0) break;
+		if (poll(&p, 1, tot ? 2000 : 30000) <= 0) break;      // generous: replays run in parallel on a loaded machine
 		unsigned char b[64]; int n = (int)read(g_fd[h], b, sizeof b);
 		if (n <= 0) break;
 		for (int i = 0; i < n; i++) { if (tot < cap) out[tot] = b[i]; tot++; }
